@@ -1530,7 +1530,10 @@ fn chk_case<S: Fl>(ctx: &mut Ctx, cubic: bool, eflag: bool) {
 // comes with an advice point of the unit circle, derived here from the vertex itself (half-angle
 // tangent of its pre-image's direction). The checker verifies: segments chained exactly with
 // increasing ranges, vertices within eps of A(advice), every chord's sagitta ≤ k·tol (rational test
-// L² ≤ 4τ(2−τ), τ = min(k·tol/R, 1), R the largest radius). NOT verified by it (no trigonometry):
+// L² ≤ 4τ(2−τ), τ = min(k·tol/R, 1), R the largest radius); for chords that fail it, a VIOLATION
+// certificate: the unit point with the mean half-angle tangent, in the cone of the two advice points,
+// whose image is farther than tol + 2·eps from every segment (`arc.flatten/certified-tolerance`).
+// NOT verified by it (no trigonometry):
 // that (c,s) is cos/sin of x_rotation to 1e-16 and that the advice points run once along lyon's arc
 // from start to end — cross-checked here in f64 (total turning vs sweep; otherwise skip sweep-mismatch).
 
@@ -1614,7 +1617,7 @@ fn chk_arc<S: Fl>(a: Arc<S>, tol: S) -> ChkOut {
             break;
         }
     }
-    let v = exact::verdict_arc(&frame, &exact::Dy::from_f64(big_r), &dx(tol), eps, &px(p0), &px(pe), &l);
+    let v = exact::verdict_arc(&frame, &exact::Dy::from_f64(big_r), &dx(tol), eps, &px(p0), &px(pe), &l, &items);
     let vs = v.string();
     let mut o = Out::new();
     o.t(&vs).f(tol.f()).f(eps).f(cx).f(cy).f(rx).f(ry).f(big_r).f(w).b(wflip).f(p0.x.f()).f(p0.y.f()).f(pe.x.f()).f(pe.y.f());
@@ -1625,6 +1628,12 @@ fn chk_arc<S: Fl>(a: Arc<S>, tol: S) -> ChkOut {
     }
     let orcl = if !v.structure {
         vh::Verdict::fail("arc.flatten/certified-structure", "generic", vs.clone())
+    } else if let Some(i) = v.viol {
+        vh::Verdict::fail(
+            "arc.flatten/certified-tolerance",
+            "generic",
+            format!("exact checker: the ellipse point with the mean half-angle tangent of chord {} is farther than tol+2eps from every emitted segment ({} segments) {}", i, l.len(), vs),
+        )
     } else if v.vtx && v.k_idx == 0 {
         vh::Verdict::Ok
     } else {
